@@ -335,6 +335,36 @@ theorem exec_shadowed_by_enclosing_cex :
   simp [run, Fd.applyAll, applyRedirect, flagsFor, isReg, sysOpen, initSys, initFs, Sys.push, setT, emptyT,
     flatten, persist, entryOf, ownFds, tryFd, initP, Table.tryFd, H.ofd, mkOfd, FdFlat.applyAll, FdFlat.apply, openFor, setF, defaultFd]
 
+/-! ## execution contexts -/
+
+/-- **the result does not depend on the wrapper**: a command run as the body of a brace group, loop or
+`if` without redirections, or as the body of a function called (and defined) without redirections, leaves
+exactly the shell table, files, open file descriptions, probe reports and status that running it directly
+leaves; inside `( … )` the system state and the status are the same and the shell's table is untouched.
+(What a command sees and does is a function of the two tables and the system it is handed — there is no
+other context.) -/
+theorem context_wrapper_transparent (nc : Bool) (c : Cmd) (P O : Table) (s : Sys) :
+    run nc (.group (.cons c .nil) []) P O s = run nc c P O s ∧
+    run nc (.call (.cons c .nil) [] []) P O s = run nc c P O s ∧
+    (run nc (.sub (.cons c .nil) []) P O s).s = (run nc c P O s).s ∧
+    (run nc (.sub (.cons c .nil) []) P O s).status = (run nc c P O s).status ∧
+    (run nc (.sub (.cons c .nil) []) P O s).P = P := by
+  refine ⟨?_, ?_, ?_, ?_, ?_⟩ <;> simp [run, runs, Fd.applyAll]
+
+/-- … hence at any depth: two functions deep, a function inside a loop inside a group, … -/
+theorem nested_wrappers_transparent (nc : Bool) (c : Cmd) (P O : Table) (s : Sys) :
+    run nc (.call (.cons (.call (.cons c .nil) [] []) .nil) [] []) P O s = run nc c P O s ∧
+    run nc (.group (.cons (.call (.cons (.group (.cons c .nil) []) .nil) [] []) .nil) []) P O s = run nc c P O s := by
+  constructor <;> simp [(context_wrapper_transparent nc _ P O s).1, (context_wrapper_transparent nc _ P O s).2.1]
+
+example :
+    let c : Cmd := .probe 1 [.dup (some 2) false (.fd 1) false, .file none .write 0]
+    run false (.call (.cons c .nil) [] []) initP emptyT initSys = run false c initP emptyT initSys ∧
+    (run false c initP emptyT initSys).s.rep ≠ [] := by
+  refine ⟨(context_wrapper_transparent false _ initP emptyT initSys).2.1, ?_⟩
+  simp [run, Fd.applyAll, applyRedirect, runProbe, tryFd, emptyT, initP, Table.tryFd, setT, sysOpen, initSys, initFs,
+    flagsFor, isReg, defaultFd, Sys.push, mkOfd]
+
 /-! ## what an external command receives -/
 
 /-- an external command receives, at every descriptor the tables have open, exactly the open file
